@@ -723,7 +723,7 @@ class ExprMixin:
             self.emit("attr_on_kind", node, recv=recv, rkind=k, attr=attr)
         kind = None
         if attr == "version" and k == "UUID":
-            kind = "int"
+            kind = None         # Optional[int]: None for UUIDs whose variant is not RFC 4122 (UUID(int=0), NCS, Microsoft)
         if k == "Props":
             # a prop getter on a props object of unknown class: kind from the getter annotations of all Props classes
             model = getattr(self, "model", None)
